@@ -18,7 +18,7 @@ func init() {
 	})
 	register(&Prop{
 		ID: "C15",
-		Rules: []*Rule{rReport, rReverse, rFuncName, rIndexFound, rPerLayer, scoped(rWalkMulti, "the report visitor", func(_ *core.Ctx, k string) bool { return strings.Contains(k, "visitAllMulti") }), rStackSlot, rStackParse, scoped(rStackEmpty, "the frame parser", func(_ *core.Ctx, k string) bool { return strings.Contains(k, "parsePrintedStack:") }), scoped(rOneParser, "GetReportableStackTrace", func(_ *core.Ctx, k string) bool { return containsAny(k, "GetReportableStackTrace", "convertPkgStack") }), rEffectReport, {Name: "R-TAINT/S5", Doc: "the S5 sub-class of R-TAINT: provenance of every value written into the Sentry message, exceptions and extras", Run: func(c *core.Ctx) { runTaintFiltered(c, func(s *Sink) bool { return s.Class == "S5" }) }},
+		Rules: []*Rule{rFramePerEntry, rReport, rReverse, rFuncName, rIndexFound, rPerLayer, scoped(rWalkMulti, "the report visitor", func(_ *core.Ctx, k string) bool { return strings.Contains(k, "visitAllMulti") }), rStackSlot, rStackParse, scoped(rStackEmpty, "the frame parser", func(_ *core.Ctx, k string) bool { return strings.Contains(k, "parsePrintedStack:") }), scoped(rOneParser, "GetReportableStackTrace", func(_ *core.Ctx, k string) bool { return containsAny(k, "GetReportableStackTrace", "convertPkgStack") }), rEffectReport, {Name: "R-TAINT/S5", Doc: "the S5 sub-class of R-TAINT: provenance of every value written into the Sentry message, exceptions and extras", Run: func(c *core.Ctx) { runTaintFiltered(c, func(s *Sink) bool { return s.Class == "S5" }) }},
 			{Name: "R-LOOP-EXITS", Doc: rLoopExits.Doc, Run: func(c *core.Ctx) { runLoopExits(c, map[string]bool{"report.visitAllMulti": true}) }}},
 		Explain: "Decides: nil gives (nil, nil); the layer walk visits every node of the tree; stacks and safe details are collected in lock-step per node; every exception's module is the error's domain; the message is laid out source location / redacted verbose rendering / composition; the 'error types' extra is the per-layer buffer; the stack re-parsing covers the same type keys as the one-line source; provenance of every event field (S5). " +
 			"NOT decided: counting/ordering relations over runtime lists (exactly one exception per stack, one type line per layer).",
@@ -26,7 +26,7 @@ func init() {
 	})
 	register(&Prop{
 		ID: "C20",
-		Rules: []*Rule{rGrpcFlow, scoped(rCodeGetter, "the gRPC code accessor", func(_ *core.Ctx, k string) bool { return strings.Contains(k, "GetGrpcCode") }), {Name: "R-CODEC", Doc: rCodec.Doc + " (restricted to the gRPC code wrapper and the gRPC status types)", Run: func(c *core.Ctx) {
+		Rules: []*Rule{rGrpcFlow, scoped(rDecline, "the decoders of the gRPC code and status types", func(_ *core.Ctx, k string) bool { return containsAny(k, "extgrpc", "status") }), scoped(rCodeGetter, "the gRPC code accessor", func(_ *core.Ctx, k string) bool { return strings.Contains(k, "GetGrpcCode") }), {Name: "R-CODEC", Doc: rCodec.Doc + " (restricted to the gRPC code wrapper and the gRPC status types)", Run: func(c *core.Ctx) {
 			runCodec(c, func(cp *codecPair) bool {
 				return strings.Contains(cp.Name, "extgrpc") || strings.Contains(cp.Name, "status.")
 			})
@@ -36,7 +36,7 @@ func init() {
 	})
 	register(&Prop{
 		ID: "C19",
-		Rules: []*Rule{scoped(rOrder, "the hint/detail/link/tag/safe-detail accessors", func(_ *core.Ctx, k string) bool { return !strings.Contains(k, "GetOneLineSource") }), rHintProviders, rDedup, rFlattenSep, rGuardField, scoped(rFormatStored, "the hint and detail constructors", func(_ *core.Ctx, k string) bool { return containsAny(k, "Hint", "Detail", "printf-like") }), scoped(rAlwaysWraps, "the hint/detail/link/key/tag/safe-detail constructors", func(_ *core.Ctx, k string) bool {
+		Rules: []*Rule{rLayerGetter, scoped(rOrder, "the hint/detail/link/tag/safe-detail accessors", func(_ *core.Ctx, k string) bool { return !strings.Contains(k, "GetOneLineSource") }), rHintProviders, rDedup, rFlattenSep, rGuardField, scoped(rFormatStored, "the hint and detail constructors", func(_ *core.Ctx, k string) bool { return containsAny(k, "Hint", "Detail", "printf-like") }), scoped(rAlwaysWraps, "the hint/detail/link/key/tag/safe-detail constructors", func(_ *core.Ctx, k string) bool {
 			return containsAny(k, "WithHint", "WithDetail", "WithIssueLink", "WithTelemetry", "WithContextTags", "WithSafeDetails", "UnimplementedError")
 		}), scoped(rStdIdentity, "the accessor packages", func(_ *core.Ctx, k string) bool {
 			return containsAny(k, "hintdetail.", "issuelink.", "telemetrykeys.", "contexttags.", "safedetails.", "errbase.GetAllSafeDetails")
@@ -58,42 +58,42 @@ func init() {
 	})
 	register(&Prop{
 		ID:    "C18",
-		Rules: []*Rule{rEffect},
+		Rules: []*Rule{rGlobalAlias, rEffect},
 		Explain: "Decides, for every schedule at once, that no hand-written module function reachable from a read-only operation writes to state shared between goroutines: not to (anything reachable from) an error object through a non-fresh pointer, not to a package-level variable or map (unless under a dominating Lock()), and that no map iteration order can reach a result (determinism). " +
 			"NOT decided: races inside dependencies (redact, sentry, fmt, logtags), foreign error types' methods, 'same result as alone' beyond absence of shared writes and map-order dependence.",
 		Trusted: []string{"go/ssa + VTA call graph (no go/pointer: freshness is by allocation site and call-site check)", "dependencies are race-free for read-only use"},
 	})
 	register(&Prop{
 		ID:    "C11",
-		Rules: []*Rule{rCodec, rPayloadDecoder, rGenericPath, rRegType, rErrnoTable, rStackSlot, rStackWhole, rStackParse, rStackEmpty, rTreeRec, rOneParser, rSiblingGuard, rCodeGetter},
+		Rules: []*Rule{rFramePerEntry, rCodec, rPayloadDecoder, rGenericPath, rListRoundTrip, rDecline, rRegType, rErrnoTable, rStackSlot, rStackWhole, rStackParse, rStackEmpty, rTreeRec, rOneParser, rSiblingGuard, rCodeGetter},
 		Explain: "Decides, for every registered type key, that each annotation field has a wire slot that the writer fills from that same field and the reader restores into that same field (payload members, positional safe details, message), that decoders rebuild the key's own type (so flag types recognised by Go type survive), that errno predicates travel in matching pairs, and that the printed-stack slot is re-parsed for the same key set by both stack accessors. " +
 			"NOT decided: equality of re-parsed frames (text parsing), tag values rendered through ValueStr, OS predicates on foreign platforms beyond the pairing.",
 		Trusted: []string{"go/ssa", "gogo/protobuf marshalling of the payload messages"},
 	})
 	register(&Prop{
 		ID:    "C01",
-		Rules: []*Rule{scoped(rCodec, "fields that Error() reads, and the cause", codecTextFields), rOpaque, rTreeRec, rRegType, rSep, scoped(rShape, "the opaque types (what an unknowing process renders)", func(_ *core.Ctx, k string) bool { return strings.Contains(k, "opaque") }), scoped(rWalkMulti, "the encoder walk", func(_ *core.Ctx, k string) bool { return containsAny(k, "EncodeError", "is a leaf for UnwrapOnce") }), rSiblingGuard, rLoopAlias, rWriteFaithful, rErrnoTable, scoped(rFormatArg, "encoders, decoders and the opaque types", func(_ *core.Ctx, k string) bool { return containsAny(k, ".decode", ".encode", "opaque") })},
+		Rules: []*Rule{scoped(rCodec, "fields that Error() reads, and the cause", codecTextFields), rOpaque, rDecodeResult, rElide, rTreeRec, rRegType, rSep, scoped(rShape, "the opaque types (what an unknowing process renders)", func(_ *core.Ctx, k string) bool { return strings.Contains(k, "opaque") }), scoped(rWalkMulti, "the encoder walk", func(_ *core.Ctx, k string) bool { return containsAny(k, "EncodeError", "is a leaf for UnwrapOnce") }), rSiblingGuard, rLoopAlias, rWriteFaithful, rErrnoTable, scoped(rFormatArg, "encoders, decoders and the opaque types", func(_ *core.Ctx, k string) bool { return containsAny(k, ".decode", ".encode", "opaque") })},
 		Explain: "Decides the structural necessary conditions of text/shape preservation: writer/reader slot agreement for every field that Error() reads (R-CODEC), verbatim keep-and-re-emit of message, details, message type and causes by unknowing processes (R-OPAQUE-TRANSPORT), cause/branch recursion on both sides in index order with no branch dropped for any count (R-TREE-RECURSION, R-WALK-MULTI), decoders rebuilding the key's type (no drift after hop 1), one separator constant removed exactly (R-SEP), and Error()/formatter shape agreement. " +
 			"NOT decided: equality of Error() strings for all messages (in particular suffix-matching ambiguity in extractPrefix for messages containing \": \"), protobuf marshalling itself.",
 		Trusted: []string{"go/ssa", "gogo/protobuf"},
 	})
 	register(&Prop{
 		ID:    "C02",
-		Rules: []*Rule{scoped(rCodec, "identity-relevant fields: those Error() reads, explicit marks, domains", codecIdentityFields), rRegType, rOpaque, rTypeKeyWho, rMarkLayers, rTreeRec, rSep, scoped(rShape, "the opaque types (the text an unknowing process contributes to identity)", func(_ *core.Ctx, k string) bool { return strings.Contains(k, "opaque") }), scoped(rFormatArg, "encoders, decoders and the opaque types", func(_ *core.Ctx, k string) bool { return containsAny(k, ".decode", ".encode", "opaque") }), scoped(rStdIdentity, "identity tests", func(_ *core.Ctx, k string) bool { return containsAny(k, "errors.Is", "errors.As") }), scoped(rAlwaysWraps, "Mark: the portable mark is always attached", func(_ *core.Ctx, k string) bool { return strings.Contains(k, "Mark(") })},
+		Rules: []*Rule{scoped(rCodec, "identity-relevant fields: those Error() reads, explicit marks, domains", codecIdentityFields), rRegType, rDecodeResult, rDecline, rOpaque, rTypeKeyWho, rMarkLayers, rTreeRec, rSep, scoped(rShape, "the opaque types (the text an unknowing process contributes to identity)", func(_ *core.Ctx, k string) bool { return strings.Contains(k, "opaque") }), scoped(rFormatArg, "encoders, decoders and the opaque types", func(_ *core.Ctx, k string) bool { return containsAny(k, ".decode", ".encode", "opaque") }), scoped(rStdIdentity, "identity tests", func(_ *core.Ctx, k string) bool { return containsAny(k, "errors.Is", "errors.As") }), scoped(rAlwaysWraps, "Mark: the portable mark is always attached", func(_ *core.Ctx, k string) bool { return strings.Contains(k, "Mark(") })},
 		Explain: "Identity = (Error() text, chain of (family name, extension)). Decides that every identity-relevant field has slot agreement (incl. withMark's explicit mark and withDomain's extension), decoders rebuild the key's type, unknowing hops keep and re-emit the received names, every consumer of identity goes through getTypeDetails with the full mark where the extension matters, and a mark has one full type mark per layer. " +
 			"NOT decided: that text is preserved (C01's undecided part), semantics of foreign Is methods, 'never starts matching' over all pairs.",
 		Trusted: []string{"go/ssa"},
 	})
 	register(&Prop{
 		ID:    "C04",
-		Rules: []*Rule{rOpaque, rWireMsg, rTreeRec, rRegType, rCodec, scoped(rShape, "the opaque types", func(_ *core.Ctx, k string) bool { return strings.Contains(k, "opaque") }), rSiblingGuard, rSep},
+		Rules: []*Rule{rOpaque, rDecodeResult, rWireMsg, rTreeRec, rRegType, rCodec, scoped(rShape, "the opaque types", func(_ *core.Ctx, k string) bool { return strings.Contains(k, "opaque") }), rSiblingGuard, rSep},
 		Explain: "Decides that opaque values keep and re-emit exactly what was received (message, details incl. payload Any, message type, causes - R-OPAQUE-TRANSPORT, R-TREE-RECURSION), that the wire message each registered encoder sends is what an unknowing receiver needs to rebuild Error() for the type's Error() shape (R-WIRE-MSG), and that a later knowing receiver rebuilds from payload/details (R-CODEC, R-REGTYPE). " +
 			"NOT decided: %+v equality at the final receiver; the renaming simulation (a runtime configuration). Known findings: barrier and gRPC-status encoders (see known_findings.json).",
 		Trusted: []string{"go/ssa"},
 	})
 	register(&Prop{
 		ID: "C07",
-		Rules: []*Rule{rHide, rHideKeep, rBarrierCtor, rWrapDual, rErrRefs, rFormatArg, rSecondaryAttach, scoped(rRegType, "the barrier and secondary-error types", func(_ *core.Ctx, k string) bool { return containsAny(k, "barriers.", "secondary.") }), {Name: "R-CODEC", Doc: rCodec.Doc + " (restricted to the barrier and secondary-error types)", Run: func(c *core.Ctx) {
+		Rules: []*Rule{scoped(rDetailPrint, "the hidden errors of barriers and secondary-error wrappers are printed, as values, in the verbose rendering", func(_ *core.Ctx, k string) bool { return containsAny(k, "maskedErr", "secondaryError") }), rHide, rHideKeep, rBarrierCtor, rWrapDual, rErrRefs, rFormatArg, rSecondaryAttach, scoped(rRegType, "the barrier and secondary-error types", func(_ *core.Ctx, k string) bool { return containsAny(k, "barriers.", "secondary.") }), {Name: "R-CODEC", Doc: rCodec.Doc + " (restricted to the barrier and secondary-error types)", Run: func(c *core.Ctx) {
 			runCodec(c, func(cp *codecPair) bool { return containsAny(cp.Name, "barriers.", "secondary.") })
 		}}, {Name: "R-TAINT/redactable", Doc: "the hidden message of a barrier is carried as a redactable string: conversions to redact.RedactableString in package barriers (and what its decoders receive) only from strings that were built as redactable - a plain string relabelled as redactable, or a redactable one escaped again, changes the message text after a hop", Run: func(c *core.Ctx) {
 			runTaintFiltered(c, func(s *Sink) bool { return s.Mode == "redactable" && strings.Contains(s.Name, "barriers.") })
@@ -144,7 +144,7 @@ func init() {
 	})
 	register(&Prop{
 		ID:    "C09",
-		Rules: []*Rule{rFmtDelegate, rShape, rDetailPrint, rVerbDispatch, rGuardField, rSep, rStateFlags, rWriteFaithful, scoped(rFormatArg, "the detail formatters: a stored text is printed, not used as a format", func(_ *core.Ctx, k string) bool { return containsAny(k, "FormatError", "SafeFormatError") }), rSpecialText, scoped(rCodec, "clause A2: details that a decoder reads by position are written at fixed positions, so each wrapper's own detail lands in its own field (and is printed under its own label) after a hop", func(_ *core.Ctx, k string) bool { return strings.Contains(k, "] A2 ") })},
+		Rules: []*Rule{rFmtDelegate, rShape, rDetailPrint, rElide, rVerbDispatch, rGuardField, rSep, rStateFlags, rWriteFaithful, scoped(rFormatArg, "the detail formatters: a stored text is printed, not used as a format", func(_ *core.Ctx, k string) bool { return containsAny(k, "FormatError", "SafeFormatError") }), rSpecialText, scoped(rCodec, "clause A2: details that a decoder reads by position are written at fixed positions, so each wrapper's own detail lands in its own field (and is printed under its own label) after a hop", func(_ *core.Ctx, k string) bool { return strings.Contains(k, "] A2 ") })},
 		Explain: "Decides the code-level reasons the verbs are mutually consistent: every instantiated library type routes Format through the single dispatcher FormatError; Error() and the detail formatter of each type agree on the message shape (so %v/%s = Error() at every depth); each wrapper's annotation fields reach a Print inside the detail region. " +
 			"NOT decided: width/precision/flag rendering (delegated to fmt), entry numbering/indentation and the 'Error types' line (loop arithmetic over runtime lists), comparison with reference renderings.",
 		Trusted: []string{"go/ssa", "fmt and redact formatting semantics"},
@@ -172,7 +172,7 @@ func init() {
 	})
 	register(&Prop{
 		ID:    "C10",
-		Rules: []*Rule{rNil, rShape, rWrapDual, rCtorCause, rAlwaysWraps, rFormatStored, rOwnedBranches, scoped(rWalkCurrent, "Is, IsAny, If, As and the accessors", nil), scoped(rWalkMulti, "Is, IsAny, As: every layer of the chain looks into its branches, so a match inside a branch survives any wrapper", func(_ *core.Ctx, k string) bool { return containsAny(k, "markers.Is", "errutil.As") }), rFormatArg, rFmtPath, forwardScoped("New*", "Wrap*", "With*", "Errorf", "Handled*", "Opaque", "Mark", "CombineErrors", "Join*", "AssertionFailed*", "NewAssertionErrorWithWrappedErrf", "HandleAsAssertionFailure*", "UnimplementedError*")},
+		Rules: []*Rule{rNil, rBoxedNil, rShape, rWrapDual, rCtorCause, rAlwaysWraps, rFormatStored, rOwnedBranches, scoped(rWalkCurrent, "Is, IsAny, If, As and the accessors", nil), scoped(rWalkMulti, "Is, IsAny, As: every layer of the chain looks into its branches, so a match inside a branch survives any wrapper", func(_ *core.Ctx, k string) bool { return containsAny(k, "markers.Is", "errutil.As") }), rFormatArg, rFmtPath, forwardScoped("New*", "Wrap*", "With*", "Errorf", "Handled*", "Opaque", "Mark", "CombineErrors", "Join*", "AssertionFailed*", "NewAssertionErrorWithWrappedErrf", "HandleAsAssertionFailure*", "UnimplementedError*")},
 		Explain: "Decides the nil clauses of the property for every exported constructor on every path (nilness abstract interpretation, no execution). " +
 			"NOT decided: equality of Error() strings with the compositional model, 'Join of only nils = nil' (a count over runtime arguments).",
 		Trusted: []string{"go/ssa", "nilness lattice with branch refinement; unknown callees are Top"},
